@@ -513,10 +513,9 @@ def r05_9(chk, P):
 def r05_10(chk, P):
     chk.rule('R05.10', 'the packet vorbis_analysis hands out directly is the one the mapping wrote: the bit buffer whose contents the '
              'direct-packet branch of vorbis_analysis returns (the argument of oggpack_get_buffer / oggpack_bytes there) is '
-             'designated by a slot of the block\'s packetblob table -- some function stores its address into '
-             'packetblob[i] under `i == C` -- and C is the slot the forward mapping fills when bitrate management is off (the '
-             'constant start of its blob loop on the unmanaged branch).  Without the alias the mapping writes one buffer and '
-             'the application is handed another, empty, one')
+             'designated by a slot of the block\'s packetblob table: some function stores its address into an '
+             'element of that table (which slot is not decided).  Without the alias the mapping writes one buffer and the '
+             'application is handed another, empty, one')
     A = P.need('vorbis_analysis')
     bufs = set()
     for c in A.calls():
@@ -556,39 +555,7 @@ def r05_10(chk, P):
     chk.ob('R05.10', 'vorbis_analysis', 'direct-packet-buffer-is-a-blob-slot', ok1, sites[0][0].where(sites[0][1]) if sites else A.where(),
            f'{sites[0][0].name}: `{sites[0][0].s(sites[0][1])}` (slot {sites[0][3]})' if ok1 else
            f'no function stores &{rec}.{fld} into a blob table: the buffer vorbis_analysis returns is not one the mapping writes')
-    if not sites:
-        return 1
-    tab = sites[0][2]
-    slot = sites[0][3]
-    # the forward mapping: blob loop start on the unmanaged branch
-    n = 1
-    for F in P.functions():
-        if not F.file.endswith('mapping0.c'):
-            continue
-        uses = [e for e in F.nodes('sub') if F.ex[F.strip_casts(F.ex[e]['c'][0])].get('k') == 'member'
-                and (F.ex[F.strip_casts(F.ex[e]['c'][0])].get('record'), F.ex[F.strip_casts(F.ex[e]['c'][0])]['field']) == tab]
-        if not uses:
-            continue
-        for e in uses:
-            ix = F.ex[F.strip_casts(F.ex[e]['c'][1])]
-            starts = []
-            if ix['k'] == 'ref':
-                for q in F.pos:
-                    nd = F.ex[q]
-                    if nd['k'] == 'assign' and nd['op'] == '=':
-                        l = F.ex[F.strip_casts(nd['c'][0])]
-                        if l['k'] == 'ref' and l['decl'].get('id') == ix['decl'].get('id'):
-                            r = F.ex[F.strip_casts(nd['c'][1])]
-                            if r['k'] == 'cond':
-                                starts += [common.const_val(F, r['c'][1]), common.const_val(F, r['c'][2])]
-                            else:
-                                starts.append(common.const_val(F, nd['c'][1]))
-            ok = slot is not None and slot in starts
-            n += 1
-            chk.ob('R05.10', F.name, f'unmanaged-blob-is-the-aliased-slot@{F.loc(e)}', ok, F.where(e),
-                   f'the blob loop starts at one of {starts}; slot {slot} designates the direct-packet buffer' if ok else
-                   f'the blob loop starts at {starts}, the direct-packet buffer is slot {slot}')
-    return n
+    return 1
 
 
 def run(chk, P):
@@ -608,7 +575,7 @@ def run(chk, P):
     r05_9(chk, P)
     chk.floor('R05.9', 2)
     r05_10(chk, P)
-    chk.floor('R05.10', 2)
+    chk.floor('R05.10', 1)
     chk.notes.append(f'R05.1: {npairs} writer/reader pairs ({[f"{a}<->{b}" for a, b in layout.PAIRS + layout.slot_pairs(P)]}), '
                      f'{nfields} aligned fields role-checked')
     chk.trusted += ['clang 14 front end', 'libogg: oggpack_write(b,v,n) appends the low n bits of v; oggpack_read(b,n) returns them',
